@@ -14,3 +14,10 @@ Definition opt_ok (c : seq * option seq) : bool :=
   opt_eqb seq_eqb (optimize (fst c)) (snd c).
 
 Definition opt_mismatches (l : list (seq * option seq)) : list N := mism opt_ok 0 l.
+
+(* Lake plans: the analysed DAG (pool scan written as OScan with the pool's
+   sort key) and whether the real optimizer inserted a Slicer. *)
+Definition slicer_ok (c : seq * bool) : bool :=
+  opt_eqb Bool.eqb (lake_order_required (fst c)) (Some (snd c)).
+
+Definition slicer_mismatches (l : list (seq * bool)) : list N := mism slicer_ok 0 l.
